@@ -28,7 +28,7 @@ K_CUSTOM = ['mouse', 'unicode', 'vkeyact', 'capsword', 'unmod', 'dynmacro', 'seq
 K_CHORD1 = ['chord1']
 
 PROFILES = {
-    'c04': dict(kinds=K_BASIC, depth=2),
+    'c04': dict(kinds=K_BASIC + ['lwh', 'lwh', 'relkey', 'rellayer'], depth=2, out_keys=['x', 'y', 'lsft', 'lctl']),
     'c05': dict(kinds=K_BASIC[:4] + K_TAPHOLD + ['lwh'], depth=2),
     'c06': dict(kinds=['key', 'chordout', 'xx', 'lwh'] + K_ONESHOT, depth=2),
     'c17': dict(kinds=['key', 'chordout', 'xx', 'lwh', 'taphold'] + K_TAPDANCE, depth=2),
@@ -59,7 +59,7 @@ class CfgGen:
 
     # ---- pieces
     def key(self):
-        return self.rng.choice(OUT_KEYS)
+        return self.rng.choice(self.p.get('out_keys', OUT_KEYS))
 
     def timeout(self):
         t = self.rng.choice(TIMEOUTS)
@@ -89,8 +89,10 @@ class CfgGen:
                              self.rng.choice(['@', ''])[:0] + self.rng.choice(['x', 'y']))
             elif r < 0.7:
                 items.append(str(self.rng.choice([1, 2, 5, 10, 30])))
-            elif r < 0.85:
+            elif r < 0.8:
                 items.append(self.rng.choice(['S-', 'C-', 'A-']) + self.rng.choice(['x', 'y', 'z']))
+            elif r < 0.9:
+                items.append(self.rng.choice(['(unicode r)', '(unicode é)', 'mlft', '(mwheel-up 50 120)', '(on-press-delay 1)']))
             elif depth < 1:
                 items.append(self.rng.choice(['S-', 'C-']) + '(' + ' '.join(self.macro_items(depth + 1)) + ')')
             else:
